@@ -113,9 +113,10 @@ class TlcResult:
 
 
 def run_tlc(name, module, cfg_text, workers=8, timeout=900, simulate=None, depth=None, seed=None,
-            env_extra=None, java_opts=None, tags=("CASE",), coverage=False, xmx="6g", generated_module=None):
+            env_extra=None, java_opts=None, tags=("CASE",), coverage=False, xmx="6g", generated_module=None, stream_to=None):
     """Run TLC on spec/<module>.tla with the given cfg text. Returns TlcResult.
-    Lines printed by the spec as <<"TAG", "json">> are collected under result.lines[TAG]."""
+    Lines printed by the spec as <<"TAG", "json">> are collected under result.lines[TAG]; with stream_to={TAG: path} the JSON
+    texts of that tag are written to the NDJSON file instead (one per line, nothing kept in memory) and counted in result.streamed."""
     d = os.path.join(BUILD, "tlc", name)
     shutil.rmtree(d, ignore_errors=True)
     os.makedirs(d, exist_ok=True)
@@ -160,10 +161,17 @@ def run_tlc(name, module, cfg_text, workers=8, timeout=900, simulate=None, depth
     tags = set(tags)
     err_text = []
     in_err = False
+    stream_to = stream_to or {}
+    sinks = {t: open(pth, "w") for t, pth in stream_to.items()}
+    r.streamed = {t: 0 for t in stream_to}
     with open(out_path, "r", errors="replace") as f:
         for line in f:
             line = line.rstrip("\n")
             m = _case_re.match(line)
+            if m and m.group(1) in sinks:
+                sinks[m.group(1)].write(_unescape(m.group(2)) + "\n")
+                r.streamed[m.group(1)] += 1
+                continue
             if m and m.group(1) in tags:
                 try:
                     r.lines.setdefault(m.group(1), []).append(json.loads(_unescape(m.group(2))))
@@ -198,6 +206,8 @@ def run_tlc(name, module, cfg_text, workers=8, timeout=900, simulate=None, depth
         r.ok = True
     if not r.ok:
         r.violation = "\n".join(err_text) if err_text else "TLC exit %d" % p.returncode
+    for fh in sinks.values():
+        fh.close()
     return r
 
 
